@@ -187,15 +187,11 @@ class BV(Bits):
 
     def identical(self, other: Self) -> bool:
         with suppress(BackendError):
-            mine = claripy.backends.vsa.convert(self)
-            theirs = claripy.backends.vsa.convert(other)
-            if not mine.identical(theirs):
+            # different abstract values: definitely not identical
+            if not claripy.backends.vsa.convert(self).identical(claripy.backends.vsa.convert(other)):
                 return False
-            # equal abstract values only prove equal expressions when they pin down a single concrete value
-            # (x + 1 and x + 2 both abstract to TOP)
-            if getattr(mine, "cardinality", None) == 1:
-                return True
-        # otherwise compare the structure up to a consistent renaming of the variables
+        # equal abstract values prove nothing (x + 1 and x + 2 both abstract to TOP), so compare the structure up to
+        # a consistent renaming of the variables
         return self.canonicalize()[2] is other.canonicalize()[2]
 
 
